@@ -68,6 +68,13 @@ def run_job(job, i, confirm=True):
             sh(["git", "-C", repo, "clean", "-fdq"])
     if conf.get("confirmed") or (not confirm and det and "error" not in det):
         dst = os.path.join(VERIF, "seeded", sid)
+        if os.path.realpath(dst) == os.path.realpath(d):
+            # re-evaluation of a kept change in place: only the verdicts are refreshed
+            old = json.load(open(os.path.join(dst, "meta.json")))
+            old["checks_run_against_it"] = det
+            old["how_run"] = "tools/seedpar.py: the quick checks of a copy of /verif run with CHOKAN_REPO = a worktree of /repo HEAD with the patch applied"
+            json.dump(old, open(os.path.join(dst, "meta.json"), "w"), ensure_ascii=False, indent=1)
+            return sid, conf.get("confirmed"), {c: (v.get("exit"), (v.get("lines") or [""])[-1][:100]) for c, v in det.items()} if "error" not in det else det
         if os.path.exists(dst):
             old = json.load(open(os.path.join(dst, "meta.json"))) if os.path.exists(os.path.join(dst, "meta.json")) else {}
             if not confirm:
